@@ -59,6 +59,8 @@ var psTypes = []string{
 	"[]third.Inner", "map[string]third.Kind", "[2]int", "int64", "uint8",
 	// containers of defined scalar types (foreign and of the origin package itself), nested containers
 	"third.Flag", "[]third.Flag", "map[string][]third.Flag", "*[]third.Flag", "[]Flag8", "map[Label]Flag8", "Label", "[]*third.Inner", "map[third.Kind]*third.Inner", "[][]byte", "[3]third.Flag", "third.Cloner", "third.Cloner", "*third.Cloner",
+	// aliases declared in the origin package whose element type cannot be named from outside
+	"Steps", "StepIndex",
 }
 
 var psTags = []string{
@@ -126,7 +128,7 @@ func genC18(t *rapid.T) c18Case {
 
 func (c c18Case) originSource() string {
 	b := &strings.Builder{}
-	b.WriteString("package origin\n\nimport \"m/third\"\n\nvar _ third.Kind\n\ntype Flag8 uint8\n\ntype Label string\n")
+	b.WriteString("package origin\n\nimport \"m/third\"\n\nvar _ third.Kind\n\ntype Flag8 uint8\n\ntype Label string\n\ntype step struct{ N int }\n\ntype Steps = []step\n\ntype StepIndex = map[string]step\n")
 	for _, o := range c.Origins {
 		fmt.Fprintf(b, "\ntype %s struct {\n", o.Name)
 		for _, f := range o.Fields {
@@ -258,6 +260,9 @@ var emptyMode bool
 // fill sets every reachable part of v to a non-zero value.
 func fill(v reflect.Value) {
 	counter++
+	if !v.CanSet() {
+		return // fields that are not exported
+	}
 	switch v.Kind() {
 	case reflect.Bool:
 		v.SetBool(true)
@@ -449,6 +454,8 @@ type c18Neg struct {
 var c18Negatives = []string{
 	"type x int", "type x []string", "type x map[string]int", "type x struct{ A int }", "type x struct{}", "type x func()", "type x *origin.O", "type x []origin.O",
 	"type x interface{ M() }", "type x origin.K", "type x = origin.O",
+	// struct literals that mention named types: still not "defined from another named type"
+	"type x struct{ Meta origin.O }", "type x struct {\n\tA int\n\tB struct{ M origin.O }\n}", "type x struct{ K origin.K; O *origin.O }", "type x [2]origin.O", "type x map[origin.K]origin.O",
 }
 
 func oracleC18Neg(c c18Neg) error {
@@ -637,7 +644,7 @@ func oracleC18Same(c c18Same) error {
 	}
 	ts := &strings.Builder{}
 	ts.WriteString("package decl\n\nimport (\n\t\"fmt\"\n\t\"reflect\"\n\t\"testing\"\n)\n\nvar _ = fmt.Sprint\n")
-	helpers := strings.Replace(psTestHelpers, "func fill(v reflect.Value) {\n\tcounter++\n", "func fill(v reflect.Value) {\n\tcounter++\n\tif !v.CanSet() {\n\t\treturn // unexported field\n\t}\n", 1)
+	helpers := psTestHelpers
 	helpers = strings.Replace(helpers, "\t\tcase v.Type() == reflect.TypeOf((*third.Iface)(nil)).Elem():\n\t\t\tv.Set(reflect.ValueOf(third.Impl{N: counter}))\n", "", 1)
 	if strings.Contains(helpers, "third.") {
 		panic("harness: the test helpers still mention package third")
